@@ -130,7 +130,7 @@ def st_case():
                 envs.append(draw(st.sampled_from([{'X': 1, 'Y': 0, 'Z': 2}, {'X': 0, 'Y': 0, 'Z': 0}, {'X': 2, 'Y': 2, 'Z': 1}])))
         flags = [draw(st.sampled_from([True, True, True, False])) for _ in range(nfun)]
         extra = {'n': draw(st.integers(0, 2)), 'pick': draw(st.integers(0, 5)), 'annvals': [draw(st.integers(0, 3)) for _ in range(3)],
-                 'annret': draw(st.sampled_from([None, 0, 1, 3]))}
+                 'annret': draw(st.sampled_from([None, 0, 1, 3, 'NONE']))}
         return {'op': op, 'funcs': funcs, 'envmode': envmode, 'envs': envs, 'flags': flags, 'extra': extra,
                 'decoy_module': draw(st.integers(0, 3)) == 0}
     return build()
@@ -220,6 +220,8 @@ def run_op(case, fns):
         src = 'def _mk(f):\n    @functools.wraps(f)\n    def _w(*args, **kwargs):\n        return f(*args, **kwargs)\n    return _w\n'
         exec(compile(src, '<verif-c11-wraps>', 'exec', flag, dont_inherit=True), env)
         w = env['_mk'](fns[0])
+        if ex['pick'] % 3 == 0:
+            w = functools.partial(w)        # ... and a partial object over the wrapper
         return sigtools.signature(w) if ex['pick'] % 2 else sig(w)
     if op in ('retrieve_class', 'retrieve_instance'):
         # the same def as __init__ of a class / __call__ of an instance (objects without code of their own)
@@ -480,7 +482,8 @@ def check_annotate(case, stats):
                 # plain objects, and strings -- also strings that spell a global of the function, or nothing at all
                 vals[name] = [OBJS[vi], 'X', 'not a name'][vi % 3] if case['extra']['pick'] % 2 else OBJS[vi]
         ret = case['extra']['annret']
-        args = () if ret is None else (OBJS[ret],)
+        retobj = None if ret == 'NONE' else OBJS[ret] if ret is not None else None      # 'NONE': the value None is the annotation
+        args = () if ret is None else (retobj,)
         desc = 'annotate(%s%s) on [%s] %s' % (', '.join(repr(a) for a in args) + (', ' if args else ''), ', '.join('%s=%r' % kv for kv in vals.items()),
                                              'postponed' if case['flags'][0] else 'eager', fsrc(f, 'f0').strip())
         try:
@@ -509,7 +512,7 @@ def check_annotate(case, stats):
                     stats.fail('C11/annotate/%s' % ('given-value' if name in vals else 'own-annotation'), case,
                                '%s -> %s: %s of %r is %r, expected %r' % (desc, R, 'evaluated()' if how else 'source_value()', name, got.get(name), exp))
                     return
-            exp = OBJS[ret] if ret is not None else (EMPTY if f['ret'] is None else denote(f['ret'], env))
+            exp = retobj if ret is not None else (EMPTY if f['ret'] is None else denote(f['ret'], env))
             if not same(got['return'], exp):
                 stats.fail('C11/annotate/%s' % ('given-return' if ret is not None else 'own-return'), case,
                            '%s -> %s: %s of the return annotation is %r, expected %r' % (desc, R, 'evaluated()' if how else 'source_value()', got['return'], exp))
